@@ -9,6 +9,8 @@ from ..core import strip, is_var, callee, const_of, walk, show, short_loc
 from ..result import RuleResult, Violation
 
 FORMATTERS = {"snprintf": 0, "vsnprintf": 0}
+# units whose formatted text is solver progress for the display reporter, never the content of a problem / basis / solution file
+NOT_FILE_CONTENT = {"simplex_": "iteration log and start-up banner of the simplex (display reporter): a cut progress line changes no file and no result"}
 STREAM_SINKS = {"fwrite": 0, "fputs": 0, "gzwrite": 1, "gzputs": 1, "BZ2_bzwrite": 1, "EGioWrite": 1, "write": 1}
 
 
@@ -31,12 +33,77 @@ def _result_used(f, b, idx, c):
     return False
 
 
+def _sink_summary(prog):
+    """fkey -> set of parameter indices whose string the function writes to a stream: handed to a stream routine, to a function pointer
+    (the reporter callback of ILLstring_report), or to a callee that does so"""
+    S = {}
+    funcs = [f for f in prog.funcs.values() if f.live is not None and "_dbl." not in f.unit and "_mpf." not in f.unit]
+    changed = True
+    while changed:
+        changed = False
+        for f in funcs:
+            for b, i, c in f.calls():
+                nm = callee(c)
+                g = prog.resolve(f, c[1]) if c[1] else None
+                positions = []
+                if nm in STREAM_SINKS:
+                    positions = [STREAM_SINKS[nm]]
+                elif c[1] is None:
+                    positions = list(range(len(c[3])))          # indirect call: a reporter / handler callback
+                elif g is not None and g.key in S:
+                    positions = sorted(S[g.key])
+                for k in positions:
+                    if k < len(c[3]):
+                        a = strip(c[3][k])
+                        if is_var(a) and isinstance(a[1], str) and a[1].startswith("p") and "char" in (f.params[int(a[1][1:])][1]):
+                            if int(a[1][1:]) not in S.setdefault(f.key, set()):
+                                S[f.key].add(int(a[1][1:]))
+                                changed = True
+    return S
+
+
+def _length_compared(f, b, c):
+    """the needed length (the call's value, or the local it is stored in) is compared with something other than zero: a test that can
+    tell 'did not fit' from 'fitted'"""
+    names = set()
+    for e in b["e"]:
+        if e[0] == "A" and e[1][1] == "=" and is_var(e[1][2], kind="l") and any(nd is c or (nd[0] == "c" and nd[4] == c[4]) for nd in walk(e[1][3])):
+            names.add(strip(e[1][2])[2])
+        if e[0] == "D":
+            for n2, init in e[1]:
+                if init is not None and any(nd[0] == "c" and nd[4] == c[4] for nd in walk(init)):
+                    names.add(n2)
+    for bid in f.live:
+        cnd = f.blocks[bid].get("c")
+        if cnd is None:
+            continue
+        for nd in walk(cnd):
+            if isinstance(nd, list) and nd and nd[0] == "b" and nd[1] in ("<", "<=", ">", ">=", "==", "!="):
+                for x, y in ((nd[2], nd[3]), (nd[3], nd[2])):
+                    x0 = strip(x)
+                    hit = (is_var(x0, kind="l") and x0[2] in names) or (isinstance(x0, list) and x0 and x0[0] == "c" and x0[4] == c[4])
+                    if hit and (const_of(y) is None or const_of(y) > 0):
+                        return True
+    # ... or it sizes an allocation (two-pass formatting)
+    for b2, i2, e2 in f.elements():
+        if e2[0] in ("A", "C"):
+            for nd in walk(e2[1]):
+                if isinstance(nd, list) and nd and nd[0] == "c" and (callee(nd) or "") in ("malloc", "realloc", "calloc", "ILLutil_allocrus", "EGmalloc"):
+                    if any(is_var(z, kind="l") and z[2] in names for a in nd[3] for z in walk(a)):
+                        return True
+    return False
+
+
 def run(prog, rule="R-TRUNC"):
     res = RuleResult(rule, "a snprintf / vsnprintf whose buffer is handed to an output stream by the same function has its return value (the "
                            "needed length) examined")
     n = 0
+    SINKS = _sink_summary(prog)
+    res.counts["functions_that_write_a_string_parameter_to_a_stream"] = len(SINKS)
     for f in sorted(prog.funcs.values(), key=lambda x: x.key):
         if "_dbl." in f.unit or "_mpf." in f.unit or f.live is None:
+            continue
+        if any(u in f.unit for u in NOT_FILE_CONTENT):
             continue
         fmts = []
         sunk = set()
@@ -50,6 +117,16 @@ def run(prog, rule="R-TRUNC"):
                 a = strip(c[3][STREAM_SINKS[nm]])
                 if is_var(a, kind="l"):
                     sunk.add(a[2])
+            elif c[1] is None:
+                for a in c[3]:                                   # a reporter / handler callback (ILLstring_report is a macro around one)
+                    if is_var(strip(a), kind="l"):
+                        sunk.add(strip(a)[2])
+            else:
+                g = prog.resolve(f, c[1]) if c[1] else None
+                if g is not None and g.key in SINKS:
+                    for k in SINKS[g.key]:
+                        if k < len(c[3]) and is_var(strip(c[3][k]), kind="l"):
+                            sunk.add(strip(c[3][k])[2])
         for (b, i, c, buf) in fmts:
             if buf not in sunk:
                 continue
@@ -66,12 +143,19 @@ def run(prog, rule="R-TRUNC"):
                 sized = any(is_var(x, kind="l") and strip(x)[2] in lens for x in walk(c[3][1]))
             if sized:
                 res.sample({"site": "%s %s: %s" % (short_loc(c[4]), f.name, show(c)[:60]), "verdict": "second pass: buffer sized by the needed length"}, limit=6)
+            elif _result_used(f, b, i, c) and not _length_compared(f, b, c):
+                res.violations.append(Violation(rule, "%s|%s into %s: needed length only tested for failure" % (f.name.replace("mpq_", ""), callee(c), buf), f.name, short_loc(c[4]),
+                                                "%s formats into %s, which this function then writes to an output stream; the returned length is looked at but never "
+                                                "compared with the size of the buffer (only with zero): a text that did not fit is written cut, without any error" % (
+                                                    show(c)[:90], buf)))
             elif _result_used(f, b, i, c):
                 res.sample({"site": "%s %s: %s" % (short_loc(c[4]), f.name, show(c)[:60]), "verdict": "needed length examined"}, limit=6)
             else:
                 res.violations.append(Violation(rule, "%s|%s into %s: needed length ignored" % (f.name.replace("mpq_", ""), callee(c), buf), f.name, short_loc(c[4]),
                                                 "%s formats into %s, which this function then writes to an output stream, and ignores the returned length: text "
                                                 "longer than the buffer is cut (tail and newline lost) without any error" % (show(c)[:90], buf)))
+    for u, why in NOT_FILE_CONTENT.items():
+        res.excepted.append((u + "*.c", why))
     res.counts["formatted_stream_writes"] = n
     res.floor("formatting calls whose buffer goes to a stream", n, 1)
     return res
